@@ -19,12 +19,16 @@ Record caseinfo := mkCase {
   kL : bytes; kR : bytes; kSL : bool; kSR : bool; kOp : op;
   kHlp : bytes; kHlpArg : list targ }.
 
+(* if-ok: {% if v, ok := helper(args).(ins); ok %} *)
+Record okinfo := mkOk { oL : bytes; oR : bytes; oIns : bytes }.
+
 Definition no_case : caseinfo := mkCase [] [] false false OpUnk [] [].
 
 Inductive node :=
 | NRaw (raw : bytes)
 | NTpl (raw pfx sfx : bytes) (noesc : bool) (mods : list tmod)
 | NCond (c : condinfo) (child : list node)
+| NCondOK (k : okinfo) (c : condinfo) (child : list node)       (* typeCondOK: if-ok with a helper *)
 | NBlock (k : bkind) (ci : caseinfo) (child : list node)       (* typeCondTrue / False / Case / Default *)
 | NLoopRange (key val src sep : bytes) (child : list node)
 | NLoopCount (cnt init lim sep : bytes) (initS limS : bool) (condOp cntOp : op) (child : list node)
@@ -37,7 +41,7 @@ Inductive node :=
 | NFlag (f : flag) (on : bool)                                   (* typeJsonQ … typeEndUrlEnc *)
 | NInclude (tpls : list bytes)
 | NExit
-| NOther (typ : Z).                                              (* typeDiv, typeCondOK (not modelled), unknown *)
+| NOther (typ : Z).                                              (* typeDiv, unknown *)
 
 Definition tree := list node.
 
